@@ -11,7 +11,7 @@ package elastic
 //@ func (*elasticClient).Get
 //@   sig c, ctx, url
 //@   locals cancel: context.CancelFunc ;; req: *net/http.Request ;; resp: *net/http.Response ;; decoder: *encoding/json.Decoder
-//@   props C10 C08 C01 C02 C14
+//@   props C10 C08 C01 C02 C14 C12
 //@   observe context.WithTimeout, http.NewRequestWithContext, Do, Close, json.NewDecoder, Decode, cancel
 //@   entry row reqfail: [call context.WithTimeout(ctx, c.dataTimeout) as (c2, cf) ; call http.NewRequestWithContext(c2, "GET", url, _) as (rq, e) ; call cancel()]
 //@                         when e != nil && ret1 == e -> exit
@@ -30,12 +30,12 @@ package elastic
 // URLs: proto://host/ and proto://host/_aliases
 //@ func (*elasticClient).GetInfo
 //@   sig c, ctx, host
-//@   props C10 C08 C01 C02 C14
+//@   props C10 C08 C01 C02 C14 C12
 //@   observe fmt.Sprintf, Get
 //@   entry row info: [call fmt.Sprintf("%s://%s/", bind_a) as (u) ; call Get(c, ctx, u) as (d, e)] when len(a) == 2 && astype(a[0], string) == c.proto && astype(a[1], string) == host && ret0 == d && ret1 == e -> exit
 //@ func (*elasticClient).GetIndexes
 //@   sig c, ctx, host
-//@   props C10 C08 C01 C02 C14
+//@   props C10 C08 C01 C02 C14 C12
 //@   observe fmt.Sprintf, Get
 //@   entry row aliases: [call fmt.Sprintf("%s://%s/_aliases", bind_a) as (u) ; call Get(c, ctx, u) as (d, e)] when len(a) == 2 && astype(a[0], string) == c.proto && astype(a[1], string) == host && ret0 == d && ret1 == e -> exit
 
@@ -44,7 +44,7 @@ package elastic
 //@ func (*Scanner).Scan
 //@   sig s, ctx, r
 //@   locals host: string ;; info: map[string]interface{} ;; indexes: map[string]interface{}
-//@   props C10 C08 C01 C02 C14
+//@   props C10 C08 C01 C02 C14 C12
 //@   observe String, fmt.Sprintf, GetInfo, GetIndexes
 //@   entry row noinfo: [call String(r.DstIP) as (ips) ; call fmt.Sprintf("%s:%d", bind_a) as (host) ; call GetInfo(s.elastic, ctx, host) as (info, e)]
 //@                        when len(a) == 2 && astype(a[0], string) == ips && astype(a[1], uint16) == r.DstPort && e != nil && ret0 == nil && ret1 == e -> exit
@@ -58,13 +58,13 @@ package elastic
 // per-request timeout is the configured data timeout (default first, then the options in order, nothing afterwards)
 //@ func WithDataTimeout$1
 //@   sig s
-//@   props C10 C08 C01 C02 C14
+//@   props C10 C08 C01 C02 C14 C12
 //@   modifies s.elastic.dataTimeout
 //@   ensures s.elastic.dataTimeout == timeout
 //@ func NewScanner
 //@   sig proto, opts
 //@   locals tr: *net/http.Transport ;; ec: *elasticClient ;; s: *Scanner ;; o: ScannerOption
-//@   props C02 C10 C08 C01 C14
+//@   props C02 C10 C08 C01 C14 C12
 //@   observe ScannerOption
 //@   entry row init:  [] when s.proto == proto && s.elastic.proto == proto && s.elastic.client.Timeout == 0 && isptr(s.elastic.client.Transport, http.Transport) && fresh(asptr(s.elastic.client.Transport, http.Transport))
 //@                       && asptr(s.elastic.client.Transport, http.Transport).Proxy == nil && asptr(s.elastic.client.Transport, http.Transport).DialContext == nil
@@ -89,5 +89,5 @@ package elastic
 //@ func WithDataTimeout
 //@   sig timeout
 //@   inline
-//@   props C10 C08 C01 C02 C14
+//@   props C10 C08 C01 C02 C14 C12
 //@   ensures closureof(ret, "WithDataTimeout$1") && capt(ret, "timeout") == timeout
